@@ -106,7 +106,11 @@ func (m *FloodSub) Execute(ctx context.Context) error {
 			// if !s.initiator {
 			if initSet == nil {
 				initSet = make([]*SubscriptionOpts, 0, len(m.channels))
-				for chid := range m.channels {
+				for chid, chm := range m.channels {
+					// skip a channel whose last subscription was released: it is swept below
+					if len(chm) == 0 {
+						continue
+					}
 					initSet = append(initSet, &SubscriptionOpts{
 						ChannelId: chid,
 						Subscribe: true,
